@@ -11,12 +11,16 @@ m = {
     "setup_cmd": "./vcheck --setup",
     "hooks": {
         "guard": "verif",
-        "enable": "no source hooks: checks are injected with `go test -c -overlay` (harness/*/zz_vp_*_test.go, harness/zz*/ helper packages) into /repo's working tree; build tag `verif` is reserved and unused",
+        "enable": "checks are injected with `go test -c -overlay` (harness/*/zz_vp_*_test.go and the helper packages harness/zz*/) into /repo's working tree; the only source hook is internal/stream/verifpoint_{on,off}.go plus one call line in Manager.HandleStreamData (a scheduling point between queueing a frame's data and signalling its FIN), enabled with `-tags verif` by the C18 check only",
         "baseline_off_cmd": baseline,
         "source_commits": HOOK_COMMITS,
         "add_only": True,
     },
     "engines": [
+        {"name": "vpsim-flood-simulator", "path": "harness/flood/zz_vp_common_sim_test.go", "serves_properties": ["C06", "C11", "C12", "C13", "C14", "C15"], "kind_free_text": "N x (real routing.Manager + real flood.Flooder + real codecs) with per-link frame queues; rapid owns delivery order, duplication, cache expiry and link flaps"},
+        {"name": "vpmesh-agent-mesh", "path": "harness/agent/zz_vp_common_mesh_test.go", "serves_properties": ["C04", "C07", "C16", "C17", "C20", "C28", "C32", "C39"], "kind_free_text": "real agent.New+Start instances linked over the in-memory transport harness/zzmem (frame tap, hold/release, kill, half-dead links)"},
+        {"name": "gate-scheduler", "path": "harness/sleep/zz_vp_c30_test.go", "serves_properties": ["C30", "C31"], "kind_free_text": "harness-owned callbacks park the code under test so that rapid draws the interleaving"},
+        {"name": "strace-crashpoints", "path": "harness/agent/zz_vp_c34_test.go", "serves_properties": ["C34"], "kind_free_text": "child process of the test binary killed by strace immediately before the k-th filesystem syscall; next start judged"},
         {"name": "rapid-overlay", "path": "vcheck", "serves_properties": sorted(CHECKS), "kind_free_text": "pgregory.net/rapid v1.3.0 property/state-machine tests compiled into the repo's packages with go test -overlay; one process per run, sharded by seed in the thorough tier"},
         {"name": "go-native-fuzz", "path": "vcheck", "serves_properties": sorted(k for k, c in CHECKS.items() if c.get("fuzz")), "kind_free_text": "coverage-guided go test -fuzz campaigns with the semantic oracle inside the target; thorough tier only; seeded from corpus/<id>/"},
     ],
